@@ -483,7 +483,7 @@ def meanYear (years : List Int) : Rat := mean ((uniqueYears years).map (fun (y :
     (and `detrending_with_significance_test`), every value of year `y` loses `slope · (y − mean(unique years))` -/
 theorem dailyTrend_linear (cfg : Cfg) (hsig : cfg.detrendingWithSignificanceTest = true) (x : List Rat)
     (years : List Int) (hlen : x.length = years.length) :
-    dailyTrend cfg true x years = years.map (fun y => trendSlope x years * ((y : Rat) - meanYear years)) := by
+    dailyTrend cfg true x years = years.map (fun (y : Int) => trendSlope x years * ((y : Rat) - meanYear years)) := by
   unfold dailyTrend annualTrend
   simp only [hsig, Bool.and_self, if_true]
   rw [zipWith_ignore_left _ x years hlen]
@@ -498,7 +498,7 @@ theorem dailyTrend_linear (cfg : Cfg) (hsig : cfg.detrendingWithSignificanceTest
 /-- not significant (or the significance test switched off): nothing is removed -/
 theorem dailyTrend_zero (cfg : Cfg) (sig : Bool) (h : (sig && cfg.detrendingWithSignificanceTest) = false) (x : List Rat)
     (years : List Int) (hlen : x.length = years.length) :
-    dailyTrend cfg sig x years = years.map (fun _ => 0) := by
+    dailyTrend cfg sig x years = years.map (fun (_ : Int) => (0 : Rat)) := by
   unfold dailyTrend annualTrend
   simp only [h, Bool.false_eq_true, if_false]
   rw [zipWith_ignore_left _ x years hlen]
